@@ -37,7 +37,7 @@ CFG = dict(
              "merges (modify / add / remove rows, 1..3 blocks, 1..4 workers), fast-forward both ways, identical, ff=never; fetch of "
              "sequences produced by the real ObjectSender (full, incremental, one object per packfile, after an interrupted fetch, "
              "rejected and forced non-fast-forward, shallow) and hostile orders (table before blocks, commit before parent, block-index "
-             "mismatch, advertised commit missing); prune with orphans sharing blocks/tables, early return, after interrupted prunes; "
+             "mismatch, advertised commit missing); prune with orphans sharing blocks/tables, early return, after interrupted prunes; orphan sub-DAGs of 4..9 commits with forks and merges of unequal branch lengths (fetched through the real ObjectSender under one branch per tip, branches deleted): fixed witnesses (a<-b<-c<-e + a<-d, orphan merge of two orphan branches, lopsided diamonds, two roots) and random DAGs, every prefix of the commit-deletion phase judged for Closed; "
              "random histories of 2..6 steps (commit, crashed commit, branch, delete branch, fetch, prune) followed by a random "
              "operation. EVERY case enumerates ALL crash prefixes n=0..L (re-run from each) and a write error at every position. "
              "distinct = distinct case text; non-trivial = the operation performs at least one write on a non-empty table / history",
